@@ -77,6 +77,8 @@ pub struct Observed {
     pub error: Option<String>,
     /// problems in the byte stream itself (unframed bytes in framed mode, unknown tags, ...)
     pub stream_errors: Vec<String>,
+    /// payloads of records a runtime-direct printer wrote to the shared port in framed mode
+    pub unframed_direct: Vec<String>,
 }
 
 fn port_dest(run: &ProgramRun, port: usize) -> Result<Dest, String> {
@@ -96,7 +98,7 @@ fn port_dest(run: &ProgramRun, port: usize) -> Result<Dest, String> {
 /// Turn the event list of one file run into outputs.
 pub fn observe(run: &ProgramRun, c: &Compiled, idx: usize) -> Observed {
     let fr = &run.world.runs[idx];
-    let mut o = Observed { truthy: fr.truthy, outs: vec![], stop_at: None, error: fr.error.clone(), stream_errors: vec![] };
+    let mut o = Observed { truthy: fr.truthy, outs: vec![], stop_at: None, error: fr.error.clone(), stream_errors: vec![], unframed_direct: vec![] };
     let framed_mode = c.io_map.is_some();
     let mut pending = String::new();
     for ev in &fr.events {
@@ -105,6 +107,9 @@ pub fn observe(run: &ProgramRun, c: &Compiled, idx: usize) -> Observed {
                 match port_dest(run, *port) {
                     Ok(dest) => {
                         if framed_mode && *port == 0 {
+                            if *direct {
+                                o.unframed_direct.push(payload.clone());
+                            }
                             o.stream_errors.push(format!("record {:?} written to the shared port outside any frame{}", payload, if *direct { " (runtime-direct printer)" } else { "" }));
                         }
                         if !pending.is_empty() {
